@@ -26,18 +26,22 @@ pub struct Canned {
     pub body: Arc<Vec<u8>>,
     /// Declare this Content-Length instead of the real one (a larger value = truncated transfer).
     pub declare: Option<u64>,
+    /// An entity tag (complete, with quotes): sent as `ETag` with the response; a request whose `If-None-Match`
+    /// is this tag is answered `304 Not Modified` instead.
+    pub etag: Option<String>,
 }
 
 impl Canned {
-    pub fn status(status: u16) -> Self { Canned { status, headers: Vec::new(), body: Arc::new(Vec::new()), declare: None } }
-    pub fn ok(body: Vec<u8>) -> Self { Canned { status: 200, headers: Vec::new(), body: Arc::new(body), declare: None } }
+    pub fn status(status: u16) -> Self { Canned { status, headers: Vec::new(), body: Arc::new(Vec::new()), declare: None, etag: None } }
+    pub fn ok(body: Vec<u8>) -> Self { Canned { status: 200, headers: Vec::new(), body: Arc::new(body), declare: None, etag: None } }
+    pub fn with_etag(mut self, tag: &str) -> Self { self.etag = Some(tag.to_string()); self }
     pub fn with_header(mut self, k: &str, v: &str) -> Self { self.headers.push((k.to_string(), v.to_string())); self }
     /// The body is cut after `keep` bytes although the full length is declared.
     pub fn truncated(body: Vec<u8>, keep: usize) -> Self {
         let n = body.len() as u64;
         let mut b = body;
         b.truncate(keep);
-        Canned { status: 200, headers: Vec::new(), body: Arc::new(b), declare: Some(n) }
+        Canned { status: 200, headers: Vec::new(), body: Arc::new(b), declare: Some(n), etag: None }
     }
 }
 
@@ -145,7 +149,11 @@ fn serve(
             let (k, v) = l.split_once(':')?;
             Some((k.trim().to_ascii_lowercase(), v.trim().to_string()))
         }).collect();
-        let canned = routes.lock().unwrap().get(&path).cloned().unwrap_or_else(|| Canned::status(404));
+        let mut canned = routes.lock().unwrap().get(&path).cloned().unwrap_or_else(|| Canned::status(404));
+        if let Some(tag) = canned.etag.clone() {
+            if headers.iter().any(|(k, v)| k == "if-none-match" && *v == tag) { canned = Canned::status(304); }
+            canned.headers.push(("ETag".to_string(), tag));
+        }
         log.lock().unwrap().push(Request { path, headers });
         // a body shorter than declared can only be ended by closing the connection
         let close = canned.declare.is_some();
